@@ -107,13 +107,22 @@ CHECKS = {
         'level_note': 'real MakeAuthenticationRequest, nameIDFormat, randomBytes, AuthnRequest.Element and the etree builder code executed from SSA; RandReader is a harness reader returning solver-chosen bytes. Outside: deflate/base64/XML serialisation (library loops).',
         'harnesses': [
             {'name': 'Harness_C12_authnrequest', 'pkg': 'saml', 'replay': 'direct', 'must_reach': ['made']},
+            {'name': 'Harness_C12_redirect', 'pkg': 'saml', 'replay': 'direct', 'must_reach': ['redirect', 'signed-redirect'], 'validate_labels': ['redirect', 'signed-redirect'],
+             'label_prefix': 'C12/', 'quick': {'params': {'relay.maxlen': 2, 'rand.mayfail': 0}}, 'thorough': {'params': {'relay.maxlen': 3, 'rand.mayfail': 0}}},
+            {'name': 'Harness_C12_logout_redirect', 'pkg': 'saml', 'replay': 'direct', 'must_reach': ['logout-request', 'logout-response'],
+             'quick': {'params': {'relay.maxlen': 2, 'rand.mayfail': 0}}, 'thorough': {'params': {'relay.maxlen': 3, 'rand.mayfail': 0}}},
         ],
     },
     'C13': {
-        'level_text': 'z3 decides, for every method string at once and each key kind, that GetSigningContext succeeds only for a supported method matching the key type and configures exactly that method; replayed natively with real RSA/ECDSA/Ed25519 keys.',
+        'level_text': 'z3 decides, for every method string at once and each key kind, that GetSigningContext succeeds only for a supported method matching the key type and configures exactly that method; that every POST/logout/artifact message made with signing configured carries an enveloped signature of the SP key over its own element or is refused; that the redirect signature covers exactly the SAMLRequest/RelayState/SigAlg octets; and that metadata advertises the signing certificate iff signing is configured. Replayed natively with real RSA/ECDSA/Ed25519 keys.',
         'level_note': 'real GetSigningContext plus goxmldsig NewSigningContext/SetSignatureMethod/GetSignatureMethodIdentifier executed from SSA; keys are opaque objects of dynamic type *rsa.PrivateKey / *ecdsa.PrivateKey / ed25519.PrivateKey. Outside: that signatures verify (cryptography).',
         'harnesses': [
             {'name': 'Harness_C13_context', 'pkg': 'saml', 'replay': 'direct', 'must_reach': ['context', 'refused']},
+            {'name': 'Harness_C13_attached', 'pkg': 'saml', 'replay': 'direct', 'must_reach': ['made', 'refused', 'made-with-signing-configured'],
+             'validate_labels': ['made', 'made-with-signing-configured'], 'opts': {'no_sign_err': True}, 'quick': {'params': {'rand.mayfail': 0}}, 'thorough': {'params': {'rand.mayfail': 0}}},
+            {'name': 'Harness_C13_metadata', 'pkg': 'saml', 'replay': 'direct', 'must_reach': ['metadata']},
+            {'name': 'Harness_C12_redirect', 'pkg': 'saml', 'replay': 'direct', 'must_reach': ['signed-redirect'], 'validate_labels': ['signed-redirect'],
+             'label_prefix': 'C13/', 'quick': {'params': {'relay.maxlen': 1, 'rand.mayfail': 0}}, 'thorough': {'params': {'relay.maxlen': 2, 'rand.mayfail': 0}}},
         ],
     },
     'C14': {
